@@ -20,5 +20,10 @@ def tasks(ctx):
     return filter_tasks(ts)
 
 
+# components whose representation invariants the lemmas above assume in every reachable state (engine/closure.py adds
+# the preservation obligations of all their functions)
+tasks.invariant_packages = ('oam',)
+
+
 def run(tier, seed):
     return run_property("C16", tasks, "proof", tier, seed, BASE_ASSUME + ["the DMA source is read through an abstract bus function of the address (any memory map)"], TRUSTED)
